@@ -25,6 +25,7 @@ import (
 	"strconv"
 	"strings"
 	"sync"
+	"sync/atomic"
 	"time"
 
 	"cuelabs.dev/go/oci/ociregistry"
@@ -39,17 +40,49 @@ import (
 
 // ---------------------------------------------------------------- descriptions
 
+// famDesc names a generated family of names: Pre followed by the decimal numeral of i padded
+// to Width digits, for i = Lo .. Lo+Count-1 (fmt.Sprintf("%s%0*d", Pre, Width, i); in the case
+// file: fam Pre Width Lo Count, coq/Obs/C05.v).  Listings of more than ten thousand names - the
+// only ones on which the server's built-in page cap and page sizes above it show - are
+// described this way instead of being spelled out.
+type famDesc struct {
+	Pre   string `json:"pre"`
+	Width int    `json:"width"`
+	Lo    int    `json:"lo"`
+	Count int    `json:"count"`
+}
+
+func (f *famDesc) name(i int) string { return fmt.Sprintf("%s%0*d", f.Pre, f.Width, i) }
+
+func (f *famDesc) names() []string {
+	if f == nil {
+		return nil
+	}
+	out := make([]string, f.Count)
+	for i := range out {
+		out[i] = f.name(f.Lo + i)
+	}
+	return out
+}
+
+func (f *famDesc) coq() string {
+	return fmt.Sprintf("(fam %s %d %d %d)", hx.B(f.Pre), f.Width, f.Lo, f.Count)
+}
+
 type repoDesc struct {
-	Name  string   `json:"name"`
-	Tags  []string `json:"tags,omitempty"`
-	Refs  []int    `json:"refs,omitempty"`  // ids of manifests whose subject is theSubject
-	Other []int    `json:"other,omitempty"` // ids of manifests with another subject
+	Name   string   `json:"name"`
+	Tags   []string `json:"tags,omitempty"`
+	TagFam *famDesc `json:"tag_fam,omitempty"` // further tags
+	Refs   []int    `json:"refs,omitempty"`    // ids of manifests whose subject is theSubject
+	Other  []int    `json:"other,omitempty"`   // ids of manifests with another subject
 }
 
 type stackDesc struct {
 	Kind     string     `json:"kind"` // mem script funcs hop select sub unify debug
 	Repos    []repoDesc `json:"repos,omitempty"`
+	RepoFam  *famDesc   `json:"repo_fam,omitempty"` // mem: further repositories, without tags
 	Items    []string   `json:"items,omitempty"`
+	ItemFam  *famDesc   `json:"item_fam,omitempty"` // script: the items (Items is empty then)
 	ErrCode  string     `json:"err_code,omitempty"`
 	PageSize int        `json:"page_size,omitempty"`
 	Max      int        `json:"max,omitempty"`
@@ -105,6 +138,27 @@ func (s *stackDesc) kinds(set map[string]bool) {
 			c.kinds(set)
 		}
 	}
+}
+
+// volume is the number of names the leaves of the stack hold: no listing makes more calls.
+func (s *stackDesc) volume() int {
+	if s == nil {
+		return 0
+	}
+	n := len(s.Items) + len(s.Repos)
+	if s.RepoFam != nil {
+		n += s.RepoFam.Count
+	}
+	if s.ItemFam != nil {
+		n += s.ItemFam.Count
+	}
+	for _, rd := range s.Repos {
+		n += len(rd.Tags) + len(rd.Refs)
+		if rd.TagFam != nil {
+			n += rd.TagFam.Count
+		}
+	}
+	return n + s.Inner.volume() + s.A.volume() + s.B.volume()
 }
 
 func (s *stackDesc) hops() int {
@@ -222,26 +276,78 @@ func scripted(items []string, code string) ociregistry.Interface {
 	}
 }
 
-func build(s *stackDesc, b *built) ociregistry.Interface {
+func buildMem(s *stackDesc) ociregistry.Interface {
 	ctx := context.Background()
-	switch s.Kind {
-	case "mem":
-		r := ocimem.New()
-		for _, rd := range s.Repos {
-			_, contents := repoManifests(rd)
-			for i, c := range contents {
-				if _, err := r.PushManifest(ctx, rd.Name, "", c, indexMediaType); err != nil {
-					panic(fmt.Errorf("populate %q manifest %d: %v", rd.Name, i, err))
-				}
-			}
-			for _, t := range rd.Tags {
-				if _, err := r.PushManifest(ctx, rd.Name, t, contents[0], indexMediaType); err != nil {
-					panic(fmt.Errorf("populate %q tag %q: %v", rd.Name, t, err))
-				}
+	r := ocimem.New()
+	for _, rd := range s.Repos {
+		_, contents := repoManifests(rd)
+		for i, c := range contents {
+			if _, err := r.PushManifest(ctx, rd.Name, "", c, indexMediaType); err != nil {
+				panic(fmt.Errorf("populate %q manifest %d: %v", rd.Name, i, err))
 			}
 		}
-		return r
+		for _, t := range append(append([]string{}, rd.Tags...), rd.TagFam.names()...) {
+			if _, err := r.PushManifest(ctx, rd.Name, t, contents[0], indexMediaType); err != nil {
+				panic(fmt.Errorf("populate %q tag %q: %v", rd.Name, t, err))
+			}
+		}
+	}
+	for _, name := range s.RepoFam.names() {
+		_, contents := repoManifests(repoDesc{Name: name})
+		if _, err := r.PushManifest(ctx, name, "", contents[0], indexMediaType); err != nil {
+			panic(fmt.Errorf("populate %q: %v", name, err))
+		}
+	}
+	return r
+}
+
+var memCache = struct {
+	sync.Mutex
+	m map[string]*memEntry
+}{m: map[string]*memEntry{}}
+
+type memEntry struct {
+	once sync.Once
+	r    ociregistry.Interface
+}
+
+func sharedMem(s *stackDesc) ociregistry.Interface {
+	key, err := json.Marshal(s)
+	if err != nil {
+		panic(err)
+	}
+	memCache.Lock()
+	e := memCache.m[string(key)]
+	if e == nil {
+		if len(memCache.m) >= 16 {
+			// (a registry of twenty thousand repositories takes tens of megabytes; the ones in use
+			// stay alive through their users)
+			memCache.m = map[string]*memEntry{}
+		}
+		e = &memEntry{}
+		memCache.m[string(key)] = e
+	}
+	memCache.Unlock()
+	e.once.Do(func() { e.r = buildMem(s) })
+	if e.r == nil {
+		panic("the registry could not be filled")
+	}
+	return e.r
+}
+
+func build(s *stackDesc, b *built) ociregistry.Interface {
+	switch s.Kind {
+	case "mem":
+		if s.volume() >= 900 {
+			// filling a registry with ten thousand names is most of the cost of a long case, and
+			// listings do not change it: one registry per distinct description
+			return sharedMem(s)
+		}
+		return buildMem(s)
 	case "script":
+		if s.ItemFam != nil {
+			return scripted(s.ItemFam.names(), s.ErrCode)
+		}
 		return scripted(s.Items, s.ErrCode)
 	case "funcs":
 		return &ociregistry.Funcs{}
@@ -307,21 +413,24 @@ func errTerm(err error) string {
 	return "ENone"
 }
 
-// A listing in this harness never holds more than a few dozen names: an iterator that makes
-// more than maxCalls calls, or that does not return within watchdog, is a runaway (for
-// instance a pager that asks for the same page for ever).  It is recorded as a junk entry,
-// the consumer declines from then on, and the case is judged like any other.
-const maxCalls = 120
+// No listing makes more calls than the leaves of its stack hold names (plus an error): an
+// iterator that makes more than maxCalls calls (slack + that volume; set per case by runCase),
+// or that does not return within watchdog, is a runaway (for instance a pager that asks for the
+// same page for ever).  It is recorded as a junk entry, the consumer declines from then on, and
+// the case is judged like any other.
+const callSlack = 120
+
 const watchdog = 8 * time.Second
 
 // number of iterators abandoned by the watchdog so far; after maxStuck no further case is run
-var stuck = 0
+// (atomic: the long cases are run by several goroutines)
+var stuck atomic.Int32
 
 const maxStuck = 3
 
 // drain runs the iterator against the consumer that declines at its k-th call (k = 0: never).
 // mk makes the listing call itself (ociunify drains its members inside that call already).
-func drain[T any](mk func() ociregistry.Seq[T], k int, show func(T) string, isZero func(T) bool) []entry {
+func drain[T any](mk func() ociregistry.Seq[T], k int, maxCalls int, show func(T) string, isZero func(T) bool) []entry {
 	var mu sync.Mutex
 	var log []entry
 	abandoned := false
@@ -366,7 +475,7 @@ func drain[T any](mk func() ociregistry.Seq[T], k int, show func(T) string, isZe
 	case <-time.After(watchdog):
 		mu.Lock()
 		abandoned = true
-		stuck++
+		stuck.Add(1)
 		log = append(log, entry{Bad: "the iterator did not return within " + watchdog.String()})
 		mu.Unlock()
 	}
@@ -375,8 +484,8 @@ func drain[T any](mk func() ociregistry.Seq[T], k int, show func(T) string, isZe
 	return append([]entry{}, log...)
 }
 
-func runQuery(r ociregistry.Interface, q queryDesc, start string, k int) []entry {
-	return runQueryMany(r, q, start, []int{k})[0]
+func runQuery(r ociregistry.Interface, q queryDesc, start string, k int, maxCalls int) []entry {
+	return runQueryMany(r, q, start, []int{k}, maxCalls)[0]
 }
 
 // once makes the listing call at most once: the Seq value it returned is handed out again, so
@@ -396,26 +505,26 @@ func once[T any](mk func() ociregistry.Seq[T]) func() ociregistry.Seq[T] {
 
 // runQueryMany makes the listing call once and iterates the sequence it returned with each
 // consumer of ks in turn.
-func runQueryMany(r ociregistry.Interface, q queryDesc, start string, ks []int) [][]entry {
+func runQueryMany(r ociregistry.Interface, q queryDesc, start string, ks []int, maxCalls int) [][]entry {
 	ctx := context.Background()
 	var logs [][]entry
 	switch q.Kind {
 	case "repos":
 		mk := once(func() ociregistry.Seq[string] { return r.Repositories(ctx, start) })
 		for _, k := range ks {
-			logs = append(logs, drain(mk, k, func(s string) string { return s }, func(s string) bool { return s == "" }))
+			logs = append(logs, drain(mk, k, maxCalls, func(s string) string { return s }, func(s string) bool { return s == "" }))
 		}
 	case "tags":
 		mk := once(func() ociregistry.Seq[string] { return r.Tags(ctx, q.Repo, start) })
 		for _, k := range ks {
-			logs = append(logs, drain(mk, k, func(s string) string { return s }, func(s string) bool { return s == "" }))
+			logs = append(logs, drain(mk, k, maxCalls, func(s string) string { return s }, func(s string) bool { return s == "" }))
 		}
 	case "refs":
 		mk := once(func() ociregistry.Seq[ociregistry.Descriptor] {
 			return r.Referrers(ctx, q.Repo, ociregistry.Digest(theSubject), "")
 		})
 		for _, k := range ks {
-			logs = append(logs, drain(mk, k,
+			logs = append(logs, drain(mk, k, maxCalls,
 				func(d ociregistry.Descriptor) string { return string(d.Digest) },
 				func(d ociregistry.Descriptor) bool {
 					return d.Digest == "" && d.Size == 0 && d.MediaType == "" && d.ArtifactType == "" && len(d.Annotations) == 0
@@ -446,10 +555,22 @@ func coqStack(s *stackDesc) string {
 			for _, m := range ms {
 				mt = append(mt, "("+hx.B(m[0])+", "+hx.B(m[1])+")")
 			}
-			repos = append(repos, fmt.Sprintf("(%s, {| mr_tags := %s; mr_manifests := %s |})", hx.B(rd.Name), hx.Bs(rd.Tags), hx.List(mt)))
+			tags := hx.Bs(rd.Tags)
+			if rd.TagFam != nil {
+				tags = "(" + tags + " ++ " + rd.TagFam.coq() + ")"
+			}
+			repos = append(repos, fmt.Sprintf("(%s, {| mr_tags := %s; mr_manifests := %s |})", hx.B(rd.Name), tags, hx.List(mt)))
+		}
+		if s.RepoFam != nil {
+			ms, _ := repoManifests(repoDesc{})
+			return fmt.Sprintf("(KMem (%s ++ repos_of %s {| mr_tags := []; mr_manifests := [(%s, %s)] |}))",
+				hx.List(repos), s.RepoFam.coq(), hx.B(ms[0][0]), hx.B(ms[0][1]))
 		}
 		return "(KMem " + hx.List(repos) + ")"
 	case "script":
+		if s.ItemFam != nil {
+			return fmt.Sprintf("(KScript %s %s)", s.ItemFam.coq(), coqErr(s.ErrCode))
+		}
 		return fmt.Sprintf("(KScript %s %s)", hx.Bs(s.Items), coqErr(s.ErrCode))
 	case "funcs":
 		return "KFuncs"
@@ -478,7 +599,7 @@ func coqQuery(q queryDesc) string {
 	}
 }
 
-func coqLog(log []entry) string {
+func coqEntries(log []entry) string {
 	out := make([]string, len(log))
 	for i, e := range log {
 		switch {
@@ -493,11 +614,143 @@ func coqLog(log []entry) string {
 	return hx.List(out)
 }
 
+// A log is written as segments: entries spelled out, and runs "the members lo .. lo+count-1 of
+// a family, each accepted" (took_fam).  The encoding is lossless and found from the log alone:
+// a run is a maximal stretch of at least minRun accepted items whose names are one fixed text
+// followed by consecutive numerals of one width.
+type segment struct {
+	Run     *famDesc `json:"run,omitempty"`
+	Entries []entry  `json:"entries,omitempty"`
+}
+
+const minRun = 16
+
+// splitNum cuts a name into a text and its trailing numeral (at most 9 digits)
+func splitNum(s string) (pre string, w int, v int, ok bool) {
+	i := len(s)
+	for i > 0 && len(s)-i < 9 && s[i-1] >= '0' && s[i-1] <= '9' {
+		i--
+	}
+	if i == len(s) {
+		return "", 0, 0, false
+	}
+	v, err := strconv.Atoi(s[i:])
+	if err != nil {
+		return "", 0, 0, false
+	}
+	return s[:i], len(s) - i, v, true
+}
+
+func segments(log []entry) []segment {
+	var segs []segment
+	lit := func(es []entry) {
+		if len(es) == 0 {
+			return
+		}
+		if n := len(segs); n > 0 && segs[n-1].Run == nil {
+			segs[n-1].Entries = append(segs[n-1].Entries, es...)
+			return
+		}
+		segs = append(segs, segment{Entries: append([]entry{}, es...)})
+	}
+	for i := 0; i < len(log); {
+		e := log[i]
+		pre, w, v, ok := splitNum(e.Item)
+		if !(ok && e.Answer && e.Err == "" && e.Bad == "") {
+			lit(log[i : i+1])
+			i++
+			continue
+		}
+		f := &famDesc{Pre: pre, Width: w, Lo: v, Count: 1}
+		j := i + 1
+		for ; j < len(log); j++ {
+			x := log[j]
+			if !(x.Answer && x.Err == "" && x.Bad == "" && len(x.Item) == len(pre)+w && strings.HasPrefix(x.Item, pre)) {
+				break
+			}
+			if n, err := strconv.Atoi(x.Item[len(pre):]); err != nil || n != f.Lo+f.Count || x.Item[len(pre)] == '-' || x.Item[len(pre)] == '+' {
+				break
+			}
+			f.Count++
+		}
+		if f.Count >= minRun {
+			segs = append(segs, segment{Run: f})
+		} else {
+			lit(log[i:j])
+		}
+		i = j
+	}
+	// the encoding must give the log back
+	var back []entry
+	for _, sg := range segs {
+		if sg.Run != nil {
+			for _, n := range sg.Run.names() {
+				back = append(back, entry{Item: n, Answer: true})
+			}
+		} else {
+			back = append(back, sg.Entries...)
+		}
+	}
+	if len(back) != len(log) {
+		panic("segments: length differs")
+	}
+	for i := range log {
+		if back[i] != log[i] {
+			panic(fmt.Sprintf("segments: entry %d differs: %+v / %+v", i, back[i], log[i]))
+		}
+	}
+	return segs
+}
+
+func coqLog(segs []segment) string {
+	if len(segs) == 0 {
+		return "[]"
+	}
+	parts := make([]string, len(segs))
+	for i, sg := range segs {
+		if sg.Run != nil {
+			parts[i] = fmt.Sprintf("took_fam %s %d %d %d", hx.B(sg.Run.Pre), sg.Run.Width, sg.Run.Lo, sg.Run.Count)
+		} else {
+			parts[i] = coqEntries(sg.Entries)
+		}
+	}
+	if len(parts) == 1 && segs[0].Run == nil {
+		return parts[0]
+	}
+	return "(" + strings.Join(parts, " ++ ") + ")"
+}
+
 // ---------------------------------------------------------------- running one case
 
 type observed struct {
-	K   int     `json:"k"`
-	Log []entry `json:"log"`
+	K    int       `json:"k"`
+	Log  []entry   `json:"log,omitempty"`
+	Segs []segment `json:"log_segments,omitempty"` // instead of Log when the log has runs
+	// about the log (not written out)
+	calls, nerr, nitems int
+	lastBad             bool
+	coq                 string
+}
+
+func observe(k int, log []entry) observed {
+	o := observed{K: k, calls: len(log)}
+	for _, e := range log {
+		if e.Err != "" {
+			o.nerr++
+		}
+		if e.Item != "" {
+			o.nitems++
+		}
+	}
+	o.lastBad = len(log) > 0 && log[len(log)-1].Bad != ""
+	segs := segments(log)
+	o.coq = coqLog(segs)
+	if len(segs) == 1 && segs[0].Run == nil || len(segs) == 0 {
+		o.Log = log
+	} else {
+		o.Segs = segs
+	}
+	return o
 }
 
 func runCase(in input) (coq string, obs []observed, panicMsg string) {
@@ -508,23 +761,24 @@ func runCase(in input) (coq string, obs []observed, panicMsg string) {
 	start := string(startB)
 	b := &built{tr: &http.Transport{}}
 	defer b.close()
+	maxCalls := callSlack + in.Stack.volume()
 	var reg ociregistry.Interface
 	if p, pv := hx.Recover(func() { reg = build(in.Stack, b) }); p {
 		panic("cannot build the stack: " + pv)
 	}
 	var runs []string
 	for _, k := range in.Ks {
-		log := runQuery(reg, in.Query, start, k)
-		obs = append(obs, observed{k, log})
-		runs = append(runs, fmt.Sprintf("(%d, %s)", k, coqLog(log)))
-		if len(log) > 0 && log[len(log)-1].Bad != "" {
+		log := runQuery(reg, in.Query, start, k, maxCalls)
+		obs = append(obs, observe(k, log))
+		runs = append(runs, fmt.Sprintf("(%d, %s)", k, obs[len(obs)-1].coq))
+		if obs[len(obs)-1].lastBad {
 			break // a runaway or a panic: the other consumers would only repeat it
 		}
 	}
 	// the same sequence value iterated again: after a consumer that declined at its k-th call (the
 	// smallest and the largest positive k of the case; or after a complete pass) a complete pass
 	// must again be the whole listing.  The runs are judged like any other run with that consumer.
-	bad := len(obs) > 0 && len(obs[len(obs)-1].Log) > 0 && obs[len(obs)-1].Log[len(obs[len(obs)-1].Log)-1].Bad != ""
+	bad := len(obs) > 0 && obs[len(obs)-1].lastBad
 	if !bad {
 		firsts := []int{0}
 		lo, hi := 0, 0
@@ -542,11 +796,14 @@ func runCase(in input) (coq string, obs []observed, panicMsg string) {
 		if lo > 0 && lo != hi {
 			firsts = append(firsts, lo)
 		}
+		if in.Stack.volume() >= 900 && len(firsts) > 1 {
+			firsts = firsts[1:2] // a long listing: once, after the declining consumer
+		}
 		for _, k1 := range firsts {
-			logs := runQueryMany(reg, in.Query, start, []int{k1, 0})
+			logs := runQueryMany(reg, in.Query, start, []int{k1, 0}, maxCalls)
 			for i, k := range []int{k1, 0} {
-				obs = append(obs, observed{k, logs[i]})
-				runs = append(runs, fmt.Sprintf("(%d, %s)", k, coqLog(logs[i])))
+				obs = append(obs, observe(k, logs[i]))
+				runs = append(runs, fmt.Sprintf("(%d, %s)", k, obs[len(obs)-1].coq))
 			}
 		}
 	}
@@ -1092,27 +1349,30 @@ func topPage(s *stackDesc) int {
 func main() {
 	cfg := hx.ParseFlags()
 	out := hx.NewOut(cfg, "Obs.C05")
-	out.ShardMax = 260 // one wave of at most 16 coqc processes in the quick tier
-	add := func(in input, origin string) {
-		if stuck >= maxStuck {
+	out.ShardMax = 260            // one wave of at most 16 coqc processes in the quick tier
+	var ready map[*stackDesc]*ran // the long cases, run in the background
+	addNow := func(in input, origin string) {
+		if int(stuck.Load()) >= maxStuck {
 			return // iterators keep hanging: what has been recorded is enough to report
 		}
 		in.Start = fmt.Sprintf("%q", mustHex(in.StartHex))
-		coq, obs, _ := runCase(in)
+		var coq string
+		var obs []observed
+		if r, ok := ready[in.Stack]; ok {
+			<-r.done
+			if r.coq == "" {
+				return
+			}
+			coq, obs = r.coq, r.obs
+		} else {
+			coq, obs, _ = runCase(in)
+		}
 		shape := in.Stack.shape()
 		nerr, nitems, maxlog := 0, 0, 0
 		for _, o := range obs {
-			for _, e := range o.Log {
-				if e.Err != "" {
-					nerr++
-				}
-				if e.Item != "" {
-					nitems++
-				}
-			}
-			if len(o.Log) > maxlog {
-				maxlog = len(o.Log)
-			}
+			nerr += o.nerr
+			nitems += o.nitems
+			maxlog = max(maxlog, o.calls)
 		}
 		outcome := "items"
 		if nerr > 0 {
@@ -1144,6 +1404,25 @@ func main() {
 			}
 			out.Count("start:" + startKind)
 			out.Stats["listings"] += len(in.Ks)
+			if vol := in.Stack.volume(); vol >= 900 {
+				out.Count("long:names>=" + map[bool]string{false: "900", true: "9999"}[vol >= 9999])
+				out.Count("long:pages:" + pagesOf(in.Stack))
+			}
+		}
+	}
+	// the long listings (long.go) cost more to evaluate than the others: they are spread evenly
+	// over the case files, one after every longEvery other cases
+	var pending []longCase
+	const longEvery = 30
+	sinceLong := 0
+	add := func(in input, origin string) {
+		addNow(in, origin)
+		sinceLong++
+		if sinceLong >= longEvery && len(pending) > 0 {
+			sinceLong = 0
+			lc := pending[0]
+			pending = pending[1:]
+			addNow(lc.in, lc.origin)
 		}
 	}
 	if cfg.Replay != "" {
@@ -1173,6 +1452,8 @@ func main() {
 		}
 	}
 
+	pending = longCases(rand.New(rand.NewSource(cfg.Seed^0x10000)), cfg.Thorough())
+	ready = runLong(pending, 6)
 	g := &gen{r: cfg.Rand()}
 	mem := func(q string, repo string, names []string) *stackDesc {
 		return g.leafMem(level{q: q, repo: repo, names: names})
@@ -1403,9 +1684,64 @@ func main() {
 			add(input{Stack: st, Query: queryDesc{Kind: lv.q, Repo: lv.repo}, StartHex: hexOf(s), Ks: ksFor(len(lv.names), topPage(st), false)}, "random-family")
 		}
 	}
+	for _, lc := range pending {
+		addNow(lc.in, lc.origin)
+	}
+	if !cfg.Thorough() {
+		out.ShardMax = max(out.ShardMax, (out.Len()+15)/16)
+	}
 	if err := out.Flush(); err != nil {
 		panic(err)
 	}
+}
+
+type ran struct {
+	coq  string
+	obs  []observed
+	done chan struct{}
+}
+
+// runLong starts running the long cases, several at a time (each builds its own servers), while
+// the main goroutine goes on with the other cases; the result of a case is waited for when the
+// case is added.
+func runLong(cases []longCase, workers int) map[*stackDesc]*ran {
+	out := map[*stackDesc]*ran{}
+	next := make(chan int, len(cases))
+	for i, c := range cases {
+		out[c.in.Stack] = &ran{done: make(chan struct{})}
+		next <- i
+	}
+	close(next)
+	for w := 0; w < workers; w++ {
+		go func() {
+			for i := range next {
+				r := out[cases[i].in.Stack]
+				if int(stuck.Load()) < maxStuck {
+					r.coq, r.obs, _ = runCase(cases[i].in)
+				}
+				close(r.done)
+			}
+		}()
+	}
+	return out
+}
+
+// the page sizes of the hops of a stack, outside in
+func pagesOf(s *stackDesc) string {
+	var ps []string
+	var walk func(s *stackDesc)
+	walk = func(s *stackDesc) {
+		if s == nil {
+			return
+		}
+		if s.Kind == "hop" {
+			ps = append(ps, fmt.Sprint(s.PageSize))
+		}
+		walk(s.Inner)
+		walk(s.A)
+	}
+	walk(s)
+	return strings.Join(ps, ",")
 }
 
 func (g *gen) leafMem(lv level) *stackDesc {
